@@ -1,5 +1,5 @@
 (* Command dispatch (server.Manager.ExecCommand / memdb.CmdTable) over the keyspace model. *)
-Require Import Base.Bytes Base.GoInt Base.Reply Mem.Types Mem.Strings.
+Require Import Base.Bytes Base.GoInt Base.Reply Mem.Types Mem.Strings Mem.Lists.
 Local Open Scope Z_scope.
 
 (* [hint] is the reply observed on the implementation; only commands whose result depends on
@@ -32,6 +32,22 @@ Definition exec_cmd (d : db) (now nowms : Z) (args : list bytes) (hint : reply) 
     else if is n (B "type") then exec_type d args
     else if is n (B "rename") then exec_rename d args
     else if is n (B "ping") then exec_ping d args
+    else if is n (B "llen") then exec_llen d args
+    else if is n (B "lindex") then exec_lindex d args
+    else if is n (B "lpos") then exec_lpos d args
+    else if is n (B "lpop") then pop_cmd true d args
+    else if is n (B "rpop") then pop_cmd false d args
+    else if is n (B "lpush") then push_cmd true true d args
+    else if is n (B "lpushx") then push_cmd true false d args
+    else if is n (B "rpush") then push_cmd false true d args
+    else if is n (B "rpushx") then push_cmd false false d args
+    else if is n (B "lset") then exec_lset d args
+    else if is n (B "lrem") then exec_lrem d args
+    else if is n (B "ltrim") then exec_ltrim d args
+    else if is n (B "lrange") then exec_lrange d args
+    else if is n (B "lmove") then exec_lmove d args
+    else if is n (B "blpop") then exec_bpop true d nowms args
+    else if is n (B "brpop") then exec_bpop false d nowms args
     else (err_other, d)
   end.
 
